@@ -179,7 +179,12 @@ TRUSTED = [
 ]
 
 if __name__ == "__main__":
+    import translate_handover
+    from common import source_obligation
     main("C02", [HierStream(), LateExpose(), BareStream()],
+         source_obligations=[
+             source_obligation("HandoverSrc_C02", translate_handover.translate, "HandoverSrcProof.v",
+                               ["get_model_src_is_restrict", "model_N_src_is_matrix_size", "createS_pins_src_fresh"])],
          level_text="props/C02.v; the correspondence builds nested Solvers in /repo (sub-solvers re-used, partial exposure at "
                     "every level, optional edit of a shared sub-solver between two parent solves) and lets Coq compare the "
                     "observed top-level matrix with BOTH the nested model (solve_hier) and the flat single-level circuit "
